@@ -76,16 +76,10 @@ theorem decision_m_datasets (p p' : Port) (s s' : InstState) (d : DefaultDS) (r 
   obtain ⟨v, _, h2⟩ := bindR_ok _ _ _ h
   obtain ⟨p1, ev, pend⟩ := v
   rcases hr with rfl | rfl
-  · simp only at h2
-    split at h2
-    · cases h2
-    · simp only [Except.ok.injEq, Prod.mk.injEq] at h2
-      rw [← h2.2.1]; exact ⟨rfl, rfl, rfl, rfl⟩
-  · simp only at h2
-    split at h2
-    · cases h2
-    · simp only [Except.ok.injEq, Prod.mk.injEq] at h2
-      rw [← h2.2.1]; exact ⟨rfl, rfl, rfl, rfl⟩
+  · simp only [Except.ok.injEq, Prod.mk.injEq] at h2
+    rw [← h2.2.1]; exact ⟨rfl, rfl, rfl, rfl⟩
+  · simp only [Except.ok.injEq, Prod.mk.injEq] at h2
+    rw [← h2.2.1]; exact ⟨rfl, rfl, rfl, rfl⟩
 
 /-- the attributes BMCA writes on M1 / M2 are the *current* default data set (so a run-time quality change is
 advertised after the next BMCA run) -/
@@ -128,16 +122,26 @@ theorem quality_change_after_bmca (i : Inst) (q : ClockQuality) (p p' : Port) (s
 /-- table 33: the view an accepted Announce `a` of the parent leaves in the data sets -/
 def parentView (a : Ann) : View :=
   { gm := a.body.gm, quality := ⟨a.body.clockClass, a.body.accuracy, a.body.variance⟩, p1 := a.body.p1, p2 := a.body.p2,
-    steps := a.body.steps + 1, tp := annTimeProps a }
+    steps := if a.body.steps + 1 ≥ 65536 then 65535 else a.body.steps + 1, tp := annTimeProps a }
 
 theorem applyParent_view (s s1 : InstState) (a : Ann) (h : s.applyParent a = .ok s1) :
     viewOf s1 = parentView a ∧ s1.parent.parentPort = a.hdr.src ∧ s1.dflt = s.dflt ∧ s1.pathTrace = s.pathTrace ∧
     s1.pathEnable = s.pathEnable := by
   unfold InstState.applyParent at h
+  simp only [Except.ok.injEq] at h
+  rw [← h]; exact ⟨rfl, rfl, rfl, rfl, rfl⟩
+
+theorem applyParentS1_view (s s1 : InstState) (a : Ann) (h : s.applyParentS1 a = .ok s1) :
+    viewOf s1 = parentView a ∧ s1.parent.parentPort = a.hdr.src ∧ s1.dflt = s.dflt := by
+  unfold InstState.applyParentS1 at h
   split at h
   · cases h
-  · simp only [Except.ok.injEq] at h
-    rw [← h]; exact ⟨rfl, rfl, rfl, rfl, rfl⟩
+  · rename_i hlt
+    simp only [Except.ok.injEq] at h
+    rw [← h]
+    refine ⟨?_, rfl, rfl⟩
+    unfold viewOf parentView InstState.withParent
+    simp only [if_neg hlt]
 
 /-- **Slave, decision S1**: the data sets take the attributes announced by the new parent, stepsRemoved + 1 -/
 theorem decision_s1_datasets (p p' : Port) (s s' : InstState) (a : Ann) (e : List Out) (pd : Option (List Out))
@@ -149,7 +153,7 @@ theorem decision_s1_datasets (p p' : Port) (s s' : InstState) (a : Ann) (e : Lis
   simp only at h2
   obtain ⟨s1, hs1, h3⟩ := bindR_ok _ _ _ h2
   simp only [Except.ok.injEq, Prod.mk.injEq] at h3
-  obtain ⟨a1, a2, _⟩ := applyParent_view s s1 a hs1
+  obtain ⟨a1, a2, _⟩ := applyParentS1_view s s1 a hs1
   rw [← h3.2.1]; exact ⟨a1, a2⟩
 
 /-- **Slave, every later Announce of the parent**: received on the Slave port it updates the data sets to its
